@@ -114,6 +114,8 @@ type Term struct {
 	name    string
 	id      int
 	emitted bool
+	nz      uint64 // possibly-non-zero bits (valid when nzOK)
+	nzOK    bool
 	wide    []byte // for constants wider than 64 bits: big-endian bytes (only produced by concat folding)
 }
 
@@ -132,6 +134,96 @@ type TermTable struct {
 
 func NewTermTable() *TermTable {
 	return &TermTable{tab: map[string]*Term{}, ufs: map[string]*Term{}, pinned: map[*Term]*Term{}}
+}
+
+// ones returns a mask of the bits of t (width <= 64) that may be non-zero.
+func ones(t *Term) uint64 {
+	w := t.sort.W
+	if t.sort.K != SBV || w > 64 {
+		return ^uint64(0)
+	}
+	if t.op == OConst {
+		return t.cval
+	}
+	if t.nzOK {
+		return t.nz
+	}
+	m := mask(w)
+	var r uint64
+	switch t.op {
+	case OZExt:
+		r = ones(t.args[0])
+	case OConcat:
+		lw := t.args[1].sort.W
+		if t.args[0].sort.W > 64 || lw > 64 {
+			r = m
+		} else {
+			r = ones(t.args[0])<<uint(lw) | ones(t.args[1])
+		}
+	case OExtract:
+		if t.args[0].sort.W > 64 {
+			r = m
+		} else {
+			r = (ones(t.args[0]) >> uint(t.p2)) & m
+		}
+	case OAnd:
+		r = ones(t.args[0]) & ones(t.args[1])
+	case OOr, OXor:
+		r = ones(t.args[0]) | ones(t.args[1])
+	case OIte:
+		r = ones(t.args[1]) | ones(t.args[2])
+	default:
+		r = m
+	}
+	r &= m
+	t.nz, t.nzOK = r, true
+	return r
+}
+
+// mergeDisjoint builds a | b for operands whose possibly-non-zero bits do not overlap
+// as a concatenation of bit fields, which is the canonical form of assembled words.
+func (tt *TermTable) mergeDisjoint(a, b *Term) *Term {
+	w := a.sort.W
+	na, nb := ones(a), ones(b)
+	var res *Term
+	i := w - 1
+	for i >= 0 {
+		owner := 0
+		if na>>uint(i)&1 == 1 {
+			owner = 1
+		} else if nb>>uint(i)&1 == 1 {
+			owner = 2
+		}
+		j := i
+		for j-1 >= 0 {
+			o := 0
+			if na>>uint(j-1)&1 == 1 {
+				o = 1
+			} else if nb>>uint(j-1)&1 == 1 {
+				o = 2
+			}
+			if o != owner {
+				break
+			}
+			j--
+		}
+		var piece *Term
+		switch owner {
+		case 0:
+			piece = tt.BV(i-j+1, 0)
+		case 1:
+			piece = tt.Extract(a, i, j)
+		case 2:
+			piece = tt.Extract(b, i, j)
+		}
+		if res == nil {
+			res = piece
+		} else {
+			res = tt.Concat(res, piece)
+		}
+		i = j - 1
+	}
+	return res
 }
 
 // rep replaces a term that the path condition pins to a constant by that constant.
@@ -373,6 +465,9 @@ func (tt *TermTable) Bin(op Op, a, b *Term) *Term {
 			}
 			return tt.BV(w, uint64(sx>>y))
 		}
+	}
+	if (op == OOr || op == OXor) && w <= 64 && !a.IsConst() && !b.IsConst() && ones(a)&ones(b) == 0 && ones(a) != 0 && ones(b) != 0 {
+		return tt.mergeDisjoint(a, b)
 	}
 	// identities
 	switch op {
